@@ -273,6 +273,9 @@ pub fn prop(tier: Tier, _seed: u64) -> Prop {
         let (l, t) = (a2[d[2]], a2[d[3]]);
         let pt = pts[(d[0] + ctor) % pts.len()];
         ctx.sample(|| json!({"image": [w, h], "pixel": format!("{:?}", pt), "constructor": CTORS[ctor], "left": l, "top": t, "width,height": format!("all of {:?}^2", a2)}));
+        if ctx.describe_only {
+            return;
+        }
         let mut parent = Raw::from_fn(pt, w, h, |x, y, c| ((y * 7 + x) * 4 + c as u32 + 1) as f64);
         for &cw in a2.iter() {
             for &ch in a2.iter() {
@@ -321,6 +324,9 @@ pub fn prop(tier: Tier, _seed: u64) -> Prop {
         }
         let (l, t) = (ax[d[4]], ay[d[5]]);
         ctx.sample(|| json!({"image": [w, h], "pixel": format!("{:?}", pt), "alg": format!("{:?}", alg), "left": l, "top": t, "width": format!("{:?}", ax), "height": format!("{:?}", ay)}));
+        if ctx.describe_only {
+            return;
+        }
         let mut lc = Lcg::new(idx);
         let src = Raw::from_fn(pt, w, h, |_, _, _| lc.comp(pt.ck()));
         let mut rz = new_resizer(BE::None);
@@ -390,6 +396,9 @@ pub fn prop(tier: Tier, _seed: u64) -> Prop {
         let ps = pt.psize();
         let need: u128 = w as u128 * h as u128 * ps as u128;
         ctx.sample(|| json!({"pixel": format!("{:?}", pt), "constructor": BUF_CTORS[ctor], "size": [w, h], "need_bytes": need.to_string()}));
+        if ctx.describe_only {
+            return;
+        }
         let align = pt.ck().size();
         let huge = need > 4096;
         let lens: Vec<usize> = if huge {
